@@ -54,12 +54,14 @@ theorem stepItem_flags (fail : Option Nat) (r : Run N K W) (a it : Item N) (hd :
   have hR : ∀ p, has (rk cfg it p) (stepItem cfg L o fail r a).st.recs = has (rk cfg it p) r.st.recs := by
     intro p
     apply stepItem_st cfg L o fail (fun st => has (rk cfg it p) st.recs = has (rk cfg it p) r.st.recs) r a
+    · intro st hst; exact hst
     · intro _ _ st hst; simpa using hst
     · intro q _ st hst
       rw [writeRec_recs, has_put_ne _ _ (show rk cfg it p ≠ cfg.rkey a.s a.d q a.fold from hd.1 p q)]; exact hst
     · rfl
   have hSt : has (sk cfg it) (stepItem cfg L o fail r a).st.strats = has (sk cfg it) r.st.strats := by
     apply stepItem_st cfg L o fail (fun st => has (sk cfg it) st.strats = has (sk cfg it) r.st.strats) r a
+    · intro st hst; exact hst
     · intro _ _ st hst
       rw [writeStrat_strats, has_put_ne _ _ (show sk cfg it ≠ cfg.skey a.s a.d a.fold from hd.2)]; exact hst
     · intro q _ st hst; simpa using hst
